@@ -11,6 +11,7 @@ CHECK = {
         {"exe": "c19_parameter", "flavour": "plain", "cases": (0, 13860), "procs": (1, 6),
          "subs": ["history_exhaustive"], "args": ["--sub", "history_exhaustive", "--deep"]},
     ],
+    "fuzzers": [{"exe": "fz_parameter", "runs": (200000, 20000000), "max_len": 256, "jobs": (4, 12)}],
     "min_nontrivial": (20000, 400000),
     "timeout": (900, 7200),
     "rule": ("history: one parameter of a generated kind (enum, integer, scalar, integer pair, scalar pair, string) x <=/< comparators x domain "
@@ -36,7 +37,7 @@ CHECK = {
                     "the float -> int64 conversion of an unrepresentable double is undefined in the library: the class where x86-64's result (INT64_MIN) "
                     "lies inside the domain is left open (DESIGN.md 4.4) and counted",
                     "rapidcheck generators; Eigen"],
-    "technique": "model-based stateful property testing (rapidcheck) of parameter histories + exhaustive short histories + enumeration of all factory objects",
+    "technique": "model-based stateful property testing (rapidcheck) of parameter histories + exhaustive short histories + enumeration of all factory objects + coverage-guided fuzzing (libFuzzer) of histories against the same reference model",
     "level_text": ("Generated-input exploration against an executable reference model: 1.5e5 (quick) to 3e6 (thorough) random histories of up to 10 "
                    "operations, every history of length <= 3 (quick, also replayed deterministically on every run) / <= 4 (thorough) over a fixed "
                    "alphabet for all 26 kind x comparator combinations, and every object of the 11 factories (each id drawn ~20 times with different "
